@@ -70,8 +70,8 @@ CHECKS = {
          "deterministic simulation of a cluster of real servers driven by generated control-plane histories (create/delete dataset through any node, joins, removals, crash/restart of one or all nodes, zero-group compaction via the snapshot-threshold knob and the fake clock, isolation, message faults); catalogue model from acknowledged operations; all members' catalogues compared after settling and again after a restart of every node",
          "Seeded search over control-plane histories, snapshot cut points (compaction threshold 2/3/5000 + fake time) and restarts: every member lists the same catalogue (id, dimension, metric, partition ids, replica assignment), acknowledged creates are present, acknowledged deletes are gone (also their partition groups), replay and snapshot+suffix agree.",
          "Unacknowledged operations are indeterminate; node 1 is never removed (it is every node's join target); removals are only issued while the remaining members form a majority."),
- "C18": ("exploration", "DESIGN.md §3 C18, §2.5 World III",
-         "deterministic simulation with bursts of unawaited create/delete/join steps, removals, restarts of nodes holding datasets; simulated mutexes make lock waits durable so that a wedge is visible at a quiescent instant; bounded-liveness oracle: settle within 120 simulated seconds, no catalogue lock held while everything is blocked, canary creates succeed on every node",
+ "C18": ("exploration", "DESIGN.md §3 C18, §2.5 World III and World VI",
+         "deterministic simulation with bursts of unawaited create/delete/join steps, removals, restarts of nodes holding datasets; simulated mutexes make lock waits durable so that a wedge is visible at a quiescent instant; bounded-liveness oracle: settle within 120 simulated seconds, no catalogue lock held while everything is blocked, canary creates and data-plane probes succeed or fail loudly on every node; second leg: the real cluster connection (address book, dial cache, membership notifications) driven by several workers under a seeded token scheduler that owns every lock operation (deadlock detector, address-book and notification oracles)",
          "Seeded search over interleavings of membership notifications with catalogue applications and partition raft loading (yield points, seeded select, unawaited bursts, restart replay); liveness asserted only after faults stop.",
          "Scheduling owned at hook/RPC/yield granularity; a partition group that lost its quorum to an acknowledged removal is not counted as a control-plane wedge."),
  "C20": ("exploration", "DESIGN.md §3 C20, §2.5 World III",
